@@ -1,8 +1,114 @@
+import NaijaVerif.Model.Limits
+import NaijaVerif.Model.CfgCount
+import NaijaVerif.Gen.Caps
+import NaijaVerif.Driver.AstIO
 import NaijaVerif.Driver.Util
-/-! Family `limits` — stub (replaced by the unit that owns this family). -/
+
+/-! Line protocol `limits` (see `harness/src/limits.rs`; `<caps>` = the 11 cap fields in order):
+```
+lim <caps> <functions> <locals> <scopes> <statements> <totalOps> <totalBlocks> <calls> <k> <b:o:l>*k
+      -> limit=<none|metric:observed:limit> sum=<summaryBound> live=<livenessBound>
+prog <caps> <rootLo>:<rootHi> <hex src> F=<facts> <annotated AST>
+      -> counts=<functions>,<locals>,<scopes>,<statements>,<totalOps>,<totalBlocks>,<calls>;<b:o:l,...> limit=<…>
+e2e <rootLo>:<rootHi> <hex src> X=<expected output> F=<facts> <annotated AST>
+      -> counts=… limit=<… at Gen.Caps.defaults> warn=<n>[@lo:hi:severity] other=<n|*> plan=<none|some>
+crash <hex src>   -> ok
+F=<functions>,<locals>,<scopes>,<statements>,<calls>;<locals_len of every function>
+```
+-/
 namespace NaijaVerif.Driver.LimitsD
+open NaijaVerif NaijaVerif.Limits NaijaVerif.CfgCount NaijaVerif.Driver
+
+def nats (ws : List String) : Option (List Nat) := ws.mapM (·.toNat?)
+
+def capsOf : List Nat → Option Caps
+  | [a, b, c, d, e, f, g, h, i, j, k] =>
+      some { maxFunctions := a, maxLocals := b, maxScopes := c, maxStatements := d, maxTotalOps := e,
+             maxOpsPerFunction := f, maxTotalBlocks := g, maxBlocksPerFunction := h,
+             maxDirectUserCalls := i, maxSummaryEvents := j, maxLivenessEvents := k }
+  | _ => none
+
+def fnCountOf (s : String) : Option FnCount :=
+  match s.splitOn ":" with
+  | [b, o, l] => do pure ⟨← b.toNat?, ← o.toNat?, ← l.toNat?⟩
+  | _ => none
+
+/-- The minimal facts text: only the sizes the preflight reads.  The entries of the lists are
+placeholders; `countProgram` looks at lengths and at `localsLen` only. -/
+def factsOf (s : String) : Option Facts :=
+  if !s.startsWith "F=" then none else
+  match (s.drop 2).toString.splitOn ";" with
+  | [head, lens] =>
+      match nats (head.splitOn ","), (if lens = "" then some [] else nats (lens.splitOn ",")) with
+      | some [nf, nl, ns, nst, nc], some ls =>
+          if ls.length ≠ nf then none else
+          some { functions := ls.map fun l => { (default : FunctionInfo) with localsLen := l }
+                 locals := List.replicate nl default
+                 scopes := List.replicate ns default
+                 scopeLocals := []
+                 stmtEffects := List.replicate nst default
+                 functionDirects := []
+                 userCalls := List.replicate nc (0, 0) }
+      | _, _ => none
+  | _ => none
+
+def countsStr (c : Counts) : String :=
+  let per := if c.perFn.isEmpty then "-" else
+    ",".intercalate (c.perFn.map fun f => s!"{f.blocks}:{f.ops}:{f.locals}")
+  s!"{c.functions},{c.locals},{c.scopes},{c.statements},{c.totalOps},{c.totalBlocks},{c.directUserCalls};{per}"
+
+def progAnswer (caps : Caps) (rootSpan : String) (facts : String) (ast : List String) (e2e : Bool) :
+    String :=
+  match AstIO.parseSpan rootSpan, factsOf facts, AstIO.pBlock.run ast with
+  | some sp, some f, some (root, []) =>
+      match countProgram root f with
+      | none => "model-panic"
+      | some c =>
+          let lim := firstExceeded caps c
+          let base := s!"counts={countsStr c} limit={Limit.str lim}"
+          if e2e then
+            -- the plan and the pass warnings are abstract in the model: only their presence shows
+            let out := emitAnalysis (Plan := Unit) caps c sp () []
+            let ws := out.warnings.filter (·.kind == .analysisLimit)
+            let w := match ws with
+              | [] => "0"
+              | d :: _ => s!"{ws.length}@{d.span.lo}:{d.span.hi}:{d.sev.name}"
+            let others := (out.warnings.filter (·.kind != .analysisLimit)).length
+            let o := if lim.isSome then toString others else "*"
+            s!"{base} warn={w} other={o} plan={if out.plan.isSome then "some" else "none"}"
+          else base
+  | _, _, _ => "bad-op"
+
+def step (_ : Unit) (line : String) : Unit × String :=
+  let ws := words line
+  let ans :=
+    match ws with
+    | "lim" :: rest =>
+        match nats (rest.take 19) with
+        | some ns =>
+            if ns.length ≠ 19 then "bad-op" else
+            match capsOf (ns.take 11), (rest.drop 19).mapM fnCountOf with
+            | some caps, some per =>
+                match ns.drop 11 with
+                | [nf, nl, nsc, nst, tops, tblocks, calls, k] =>
+                    if k ≠ nf ∨ per.length ≠ k then "bad-op" else
+                    let c : Counts := { functions := nf, locals := nl, scopes := nsc, statements := nst,
+                                        totalOps := tops, totalBlocks := tblocks,
+                                        directUserCalls := calls, perFn := per }
+                    s!"limit={Limit.str (firstExceeded caps c)} sum={summaryBound nf nl} live={livenessBound per}"
+                | _ => "bad-op"
+            | _, _ => "bad-op"
+        | none => "bad-op"
+    | "prog" :: rest =>
+        match nats (rest.take 11) >>= capsOf, rest.drop 11 with
+        | some caps, sp :: _src :: facts :: ast => progAnswer caps sp facts ast false
+        | _, _ => "bad-op"
+    | ["crash", _src] => "ok"   -- the model's pipeline is total: no program makes it panic
+    | "e2e" :: sp :: _src :: _x :: facts :: ast => progAnswer Gen.Caps.defaults sp facts ast true
+    | _ => "bad-op"
+  ((), ans)
 
 def main : IO Unit := do
-  IO.eprintln "family limits: not built yet"
+  loop (← IO.getStdin) (← IO.getStdout) () step
 
 end NaijaVerif.Driver.LimitsD
